@@ -35,11 +35,9 @@ def convert_configuration(snapshots: Snapshots):
     list_box = []
     list_points = []
     for snapshot in snapshots.snapshots:
-        if snapshot.boxbounds.sum() != 0:
-            shiftfactor = snapshot.boxbounds[:, 0] + snapshot.boxlength / 2
-            points = snapshot.positions - shiftfactor[np.newaxis, :]
-        else:
-            points = snapshot.positions
+        # centre on the box centre whatever the origin (a fresh array: never an alias of the caller's positions)
+        shiftfactor = snapshot.boxbounds[:, 0] + snapshot.boxlength / 2
+        points = snapshot.positions - shiftfactor[np.newaxis, :]
 
         # pad 0 for z coordinates
         if snapshot.positions.shape[1] == 2:
